@@ -268,6 +268,21 @@ def c12_ctor_component_unknown_with_parent():
     return r[:3], r[3]
 
 
+@case
+def c03_segment_dropped_by_group_search():
+    txt = ('MSH|^~\\&|A|B|C|D|20110708162817||ADT^A01^ADT_A01|1|P|2.5\rEVN||20110708\rPID|1||X\rZZZ|1|2\rPV1|1|I\r')
+    a = parse_message(txt, find_groups=True).to_er7()
+    b = parse_message(txt, find_groups=False).to_er7()
+    return ('ZZZ' in a, 'ZZZ' in b), ('ZZZ' not in a) and ('ZZZ' in b)
+
+
+@case
+def c03_unlisted_segment_dropped():
+    txt = ('MSH|^~\\&|A|B|C|D|20110708162817||ADT^A01^ADT_A01|1|P|2.5\rEVN||20110708\rPID|1||X\rSPM|1\rPV1|1|I\r')
+    a = parse_message(txt, find_groups=True).to_er7()
+    return ('SPM' in a,), 'SPM' not in a
+
+
 if __name__ == '__main__':
     names = sys.argv[1:] or sorted(CASES)
     for n in names:
